@@ -19,7 +19,8 @@ CHECKS = {
         design_ref='DESIGN.md section 6, C01',
         note=COMMON_NOTE + ' Text fields are modelled as UTF-8 byte strings; str.strip() only for ASCII white space.'),
     'C02': dict(
-        text=('Theorems C02_emitted / C02_accepted / C02_layout_injective (Coq, no axioms): for every well-formed PDU '
+        text=('Theorems C02_emitted / C02_read_strictly / C02_accepted / C02_layout_injective (Coq, no axioms; C02_read_strictly: '
+              'the strict length-driven parser of Spec/Ps38Layout.v applied to encode p returns exactly p): for every well-formed PDU '
               'the model encoder equals an independent declarative PS3.8/PS3.7 layout in which every length field is '
               'computed from the bytes it governs, total_length = bytes emitted, every layout of a well-formed value '
               '(any sub-item order, unknown types, many TS / PDVs) decodes to that value, and the layout is injective. '
@@ -27,9 +28,12 @@ CHECKS = {
               'length-driven reference parser inside Coq.'),
         technique='Coq proof (encoder = declarative layout; lengths by induction) + correspondence + strict reference parser as oracle',
         design_ref='DESIGN.md section 6, C02',
-        note=COMMON_NOTE + ' The strict parser is an executable oracle (its own round trip is validated per run, not proved).'),
+        note=COMMON_NOTE + ' The strict parser is also the per-run oracle on the implementation\'s bytes.'),
     'C03': dict(
-        text=('Theorem C03_framing (Coq, no axioms): for EVERY list of segments of EVERY byte stream the frames the '
+        text=('Theorems C03_provider_conserves / C03_provider_frames / C03_provider_events (the provider model as a whole: no byte '
+              'lost, duplicated or reordered along any script; the byte strings handed to the PDU decoders are the PS3.8 frames of '
+              'the delivered content whatever the cuts; PDU events arise only from them), C03_conversation (any list of emitted '
+              'PDUs, any segmentation: recognised as exactly those PDUs, each decoding to its value) and C03_framing (Coq, no axioms): for EVERY list of segments of EVERY byte stream the frames the '
               'provider\'s buffer discipline recognises, and the leftover, are those of the whole stream (induction on the '
               'segment list over a prefix-monotonicity lemma for frame extraction), so no byte is lost, duplicated or '
               'reordered whatever the segmentation. The provider-level claim (same indications / replies) is carried by '
@@ -168,7 +172,8 @@ CHECKS = {
         technique='Coq proof (composition of the codec round trip, framing and the closed control abstraction) + correspondence incl. real loopback',
         design_ref='DESIGN.md section 6, C14', note=COMMON_NOTE),
     'C15': dict(
-        text=('Theorems C15_data_intact, C15_fragment_on_the_wire, C15_status, C15_no_clobber (Coq, no axioms): composition '
+        text=('Theorems C15_data_intact, C15_over_the_wire (fragmentation ; PDU codec ; any TCP segmentation ; framing ; '
+              'reassembly composed), C15_fragment_on_the_wire, C15_status, C15_no_clobber (Coq, no axioms): composition '
               'of C06 + C01 + C07 + C17: for EVERY data set and maximum length the stored message is reassembled with the '
               'identical command set (SOP class / instance) and data bytes, in memory or after the file meta header; the '
               'handler\'s status (or C000H) is the status returned; for EVERY directory content and instance UID the name '
@@ -188,7 +193,8 @@ CHECKS = {
         technique='Coq proof by induction over the result list + end-to-end correspondence through the real encode/decode path',
         design_ref='DESIGN.md section 6, C16', note=COMMON_NOTE + ' The service callables run on a real Association object whose provider is a stub (harness/svc_driver.py); handlers, sub-associations and the incoming message queue are scripted.'),
     'C17': dict(
-        text=('Theorems C17_echo, C17_store, C17_find, C17_n_action, C17_n_event_report, C17_get_user_store_response (Coq, '
+        text=('Theorems C17_echo, C17_store, C17_find, C17_move, C17_n_action, C17_n_event_report, C17_get_user_store_response, '
+              'C17_every_request_answered (Coq, '
               'no axioms): for EVERY request (all message ids, UIDs, context ids) and every handler outcome the provider '
               'models answer on the request\'s context with its message id, SOP class (and instance), the matching response '
               'type and the handler\'s status or the documented failure status. Tie: every provider callable of sopclass.py '
